@@ -7,7 +7,8 @@ import os
 import subprocess
 
 V = os.path.dirname(os.path.dirname(os.path.abspath(__file__)))
-checks = json.load(open(os.path.join(V, "checks", "checks.json")))
+import glob
+checks = {os.path.basename(os.path.dirname(p)).upper(): json.load(open(p)) for p in glob.glob(os.path.join(V, "checks", "c*", "check.json"))}
 meta = json.load(open(os.path.join(V, "checks", "manifest_meta.json")))
 props = [json.loads(l) for l in open(os.path.join(V, "properties.jsonl")) if l.strip()]
 
@@ -36,7 +37,7 @@ m = {
 for p in props:
     pid = p["id"]
     if pid in checks:
-        pm = meta["properties"].get(pid, {})
+        pm = checks[pid].get("manifest", meta["properties"].get(pid, {}))
         m["checks"].append({
             "property_id": pid,
             "quick_cmd": "./vcheck %s quick" % pid,
